@@ -187,7 +187,29 @@ def run_hostile_names(chk, stats):
                 with open(os.path.join(tree, "f-" + fn), "w") as fh:
                     fh.write("x")
             trees.append(tree)
+        # names that differ in letter case only, with a template that maps one onto the other: whatever the program does to
+        # find out whether such a destination is "the same file", it must not touch the directory in a dry run
+        case_tree = os.path.join(root, "case")
+        os.mkdir(case_tree)
+        for fn in ("Readme.txt", "README.TXT", "readme.txt", "other.md"):
+            with open(os.path.join(case_tree, fn), "w") as fh:
+                fh.write(fn)
         before = strict(root)
+        for strat in ("-cs", "-ci", "-co"):
+            for tpl in ("%Upper{%Name()}", "%Lower{%Name()}"):
+                argv = ["-dr", strat, "--", tpl, case_tree]
+                res = run_cli(argv, root, root=root, snapshots=False)
+                after = strict(root)
+                stats["hostile_name_runs"] = stats.get("hostile_name_runs", 0) + 1
+                chk.count(("case-only", strat, tpl))
+                case = {"argv": argv[:-1] + ["<tree with names differing in case only>"], "status": res.status, "stderr": res.stderr[-300:]}
+                if res.tracer.calls or [w for w in res.tracer.opens_for_write if str(w[0]).startswith(root)]:
+                    chk.oracle_fail("dry run over names differing in case only issued filesystem-changing calls / opened files for writing: %r %r" % (
+                        [(c["name"], c["args"]) for c in res.tracer.calls][:3], res.tracer.opens_for_write[:3]), case)
+                elif after != before:
+                    diff = [k for k in set(before) | set(after) if before.get(k) != after.get(k)]
+                    chk.oracle_fail("dry run over names differing in case only changed the tree (a directory's mtime counts): %r" % (sorted(diff)[:4],), case)
+                    before = after
         for opt, e in exprs:
             for mode, tpl, tree in [(m, t, tr) for tr in trees for (m, t) in (("-n", "%Upper{%Name()}"), ("-p", "%Dir()/n/%Name()"))]:
                 argv = ["-dr", "-r", "-ih", mode, opt + "=" + e, "--", tpl, tree]
